@@ -34,6 +34,25 @@ def is_nc(x):
     return x.cls.name == "_NoChange"
 
 
+def tangent_leaves(v):
+    """the change tags at the leaves of a tangent tree (tuples / lists / dicts / Pytree dataclasses)"""
+    if isinstance(v, Obj) and v.cls.name in ("_NoChange", "_UnknownChange"):
+        return [v]
+    if isinstance(v, (tuple, list)):
+        return [x for e in v for x in tangent_leaves(e)]
+    if isinstance(v, dict):
+        return [x for e in v.values() for x in tangent_leaves(e)]
+    if isinstance(v, Obj):
+        return [x for e in v.fields.values() for x in tangent_leaves(e)]
+    return []
+
+
+def every_leaf_tagged(E, r, want_nc, n_leaves):
+    """EVERY leaf of the diff tree r carries the wanted tag (not merely 'some leaf does' / 'not all leaves are NoChange')"""
+    ls = tangent_leaves(E.call(D + "tree_tangent", r))
+    return len(ls) == n_leaves and all(is_nc(x) == want_nc for x in ls)
+
+
 @task("diff.roundtrip", props=["C21", "C08"], functions=FUNCS)
 def t_roundtrip(E):
     for name, (p, t, leaves) in shapes(E).items():
@@ -58,6 +77,7 @@ def t_roundtrip(E):
                 E.prove(f"C21.Diff.{fn}.is_diff_tree[{name},{sname}]", E.z(E.call(D + "static_check_tree_diff", r)) == True)  # noqa: E712
                 E.prove(f"C21.Diff.{fn}.tags[{name},{sname}]",
                         E.z(E.call(D + "static_check_no_change", r)) == (want_nc or not leaves))
+                E.prove(f"C21.Diff.{fn}.every_leaf_gets_the_tag[{name},{sname}]", every_leaf_tagged(E, r, want_nc, len(leaves)))
     E.refutable("diff.roundtrip", E.eq(E.call(D + "tree_primal", ((E.real("q"), E.real("r")),))[0][0], E.real("r")))
 
 
@@ -88,6 +108,8 @@ def t_mixed(E):
             E.prove(f"C21.Diff.{fn}.primal_preserved[mixed,{name}]", E.eq(E.call(D + "tree_primal", r), plain))
             E.prove(f"C21.Diff.{fn}.is_diff_tree[mixed,{name}]", E.z(E.call(D + "static_check_tree_diff", r)) == True)  # noqa: E712
             E.prove(f"C21.Diff.{fn}.tags[mixed,{name}]", E.z(E.call(D + "static_check_no_change", r)) == want_nc)
+            n_leaves = {"tuple_raw_first": 2, "tuple_raw_last": 2, "nested": 4, "pytree_dataclass": 3}[name]
+            E.prove(f"C21.Diff.{fn}.every_leaf_gets_the_tag[mixed,{name}]", every_leaf_tagged(E, r, want_nc, n_leaves))
     E.refutable("diff.mixed_trees", E.eq(E.call(D + "tree_primal", (a, db))[1], a))
 
 
